@@ -14,6 +14,9 @@ Pipeline:            `sys minTrain tol varThr stability cap (sev:cond)*`, `reg a
 Read-only accessors (pure reads; the line shows what was read and a digest of the whole state afterwards):
   `peek health|cell|stats|export|repr|agents`, `tpeek` (stand-alone T cell).  Direct assignment to the public list
   `memory.signatures`: `mforget clear|assign|pop0|dellast|slice`, `mforget agent a`.
+  `mrecall a vocab struct` = `memory.recall(query)` from outside (touches the first hit).  `pflag a x` / `flag x`: the reason
+  is `1` a non-empty string, `0` the empty string, `n` None, `z` the number 0, `l` an empty list, `o` an object, `s0` the
+  string "0" (what counts is its truthiness).  `dclear a` = `displays[a].clear()`.
 Pipeline with the real display: `dreg a windowSize minObs`, `obs a text|brk|none|empty struct words len time conf err
   sdLen sdTime sdConf` (the three stdevs of the window after this observation), `canary a b`.
 -/
@@ -93,6 +96,11 @@ def tstep (st : DSt) (f : TCell → TCell) : DSt × String :=
   | none => (st, "no-tcell")
   | some t => ({ st with tcell := some (f t) }, "ok " ++ showT (f t))
 
+/-- truthiness of a manual-flag reason as the protocol spells it -/
+def truthy (s : String) : Bool := s == "1" || s == "o" || s == "s0"
+
+def reasonOk (s : String) : Bool := ["1", "0", "n", "z", "l", "o", "s0"].contains s
+
 def showRec : Option Record → String
   | none => "rec=none"
   | some r => s!"rec={r.clean}/{r.total}"
@@ -151,7 +159,7 @@ def step (st : DSt) (toks : List String) : DSt × String :=
     | some p, some t => (st, toString (check t.profile p).length)
     | some _, none => (st, "no-tcell")
     | none, _ => (st, "bad-op")
-  | ["flag", b] => tstep st (·.flagManually (boolOf b))
+  | ["flag", b] => if reasonOk b then tstep st (·.flagManually (truthy b)) else (st, "bad-op")
   | ["tset", "rep", k] => tstep st (·.setRep (intD k))
   | ["tset", "anergy", k] => tstep st (·.setAnergy (intD k))
   | ["tset", "profile", a, b, c, d, e, f, em, vs, ss, cm] =>
@@ -252,7 +260,21 @@ def step (st : DSt) (toks : List String) : DSt × String :=
       | .raiseValue => "raise:ValueError ## " ++ path
       | .raiseCond => "raise:RuntimeError" ++ tail ++ " ## " ++ path ++ " p:cond-raised"
       | .resp r => showResp r ++ tail ++ " ## " ++ path ++ " " ++ respTags "p" r ++ stored)
-  | ["pflag", a, b] => ({ st with sys := st.sys.flag (natD a) (boolOf b) }, "ok")
+  | ["pflag", a, b] => if reasonOk b then ({ st with sys := st.sys.flag (natD a) (truthy b) }, "ok") else (st, "bad-op")
+  | ["dclear", a] =>
+    match st.displays.find? (·.1 == natD a) with
+    | none => (st, "no-display")
+    | some (_, d, sd) =>
+      let d' := d.clear
+      ({ st with sys := st.sys.showPeptide (natD a) (d'.generate sd),
+                 displays := (natD a, d', sd) :: st.displays.filter (·.1 != natD a) },
+        "ok n=0" ++ (if (d'.generate sd).isSome then " ## d:peptide" else " ## d:short") ++ " d:cleared")
+  | ["mrecall", a, v, sh] =>
+    let (s', r) := st.sys.recall (natD a) (natD v) (natD sh)
+    ({ st with sys := s' },
+      match r with
+      | some x => s!"hit {showLevel x.level} {showAction x.action} ## m:recall-hit"
+      | none => "miss ## m:recall-miss")
   | ["preset", a] => ({ st with sys := st.sys.resetT (natD a) false }, "ok")
   | ["presetfa", a] => ({ st with sys := st.sys.resetT (natD a) true }, "ok")
   | ["unrec", a] => ({ st with sys := st.sys.dropRecord (natD a) }, "ok")
